@@ -690,7 +690,7 @@ def parts(tier):
     ]
 
 
-TECHNIQUE = "property-based testing (Hypothesis): a layout generator that knows the exact (line, column) of every token it emits; spans of leaves, inner nodes, empty nodes and the full token stream are compared with those coordinates"
+TECHNIQUE = "property-based testing (Hypothesis): a layout generator that knows the exact (line, column) of every token it emits; spans of leaves, inner nodes, empty nodes and the full token stream are compared with those coordinates; token stream of context-dependent span closers against a hand-written scanner"
 LEVEL_TEXT = ("Exploration: ~3k generated cases x ~4 texts per quick run (120k cases thorough) over a fixed rich grammar and random grammars; "
               "every token and every tree node is checked against coordinates computed by the renderer, get_orig_text against the source "
               "slice, and the complete token stream (skipped tokens included) against adjacency / monotonicity / coverage invariants.")
